@@ -217,3 +217,21 @@ Proof.
     + destruct (get root path_NODES) as [g|] eqn:E; [|reflexivity]. apply group_in_range_b_iff. exact (H _ g (or_introl eq_refl) E).
     + destruct (get root path_EDGES) as [g|] eqn:E; [|reflexivity]. apply group_in_range_b_iff. exact (H _ g (or_intror eq_refl) E).
 Qed.
+
+(* ---------- the forward direction with no success premise (WriteTotal.final_metadata_total) ---------- *)
+From Geff Require Import WriteLemmas ReadLemmas C01Lemmas WriteTotal.
+Theorem forward_total k pre g md n e ov :
+  clean k pre -> wf_input g md n e -> axes_have_data g md ->
+  exists md' tr post sg,
+    final_metadata g md = Ok md' /\
+    write_arrays k g md true ov (init pre) = (mkst (Some post) tr, Ok tt) /\
+    validate_structure k (Some post) = Ok tt /\
+    spec_decode post = Some sg /\
+    sgraph_eqb sg (mksg (w_nids g) (w_eids g)
+                        (of_props (up_props (backfill (w_nids g) md (w_nprops g))))
+                        (of_props (up_props (w_eprops g)))) = true.
+Proof.
+  intros Hc Hwf Hd. destruct (final_metadata_total g md n e Hwf Hd) as [md' Hfm].
+  destruct (write_then_spec_decode k pre g md md' n e ov Hc Hwf Hfm) as (tr & post & sg & H1 & H2 & H3 & H4).
+  exists md', tr, post, sg. repeat split; assumption.
+Qed.
